@@ -201,6 +201,12 @@ def run(tier, seed):
                 except Exception as e:  # noqa: BLE001
                     ok = False
                 ok = ok and math.isclose(cf * cu.base_value, u.base_value, rel_tol=1e-9) and cu.dimensions == u.dimensions
+                if ok:
+                    try:
+                        model_lines.append("\t".join(["c05.ascoeff"] + gen.unit_wire_fields(sv)))
+                        model_expect.append(("c05.ascoeff", a + ".simplify()", "", ("ok", (cf, cu))))
+                    except ValueError:
+                        pass
                 if not ok:
                     chk.fail(f"simplify|{pool[a][0]}", "simplify()/as_coeff_unit() changed what the unit denotes",
                              {"python": snippet(hdr + "w = Unit(u.expr, registry=u.registry); s = w.simplify(); r = Unit(s.expr, registry=u.registry); c, cu = s.as_coeff_unit()\n"
@@ -304,6 +310,18 @@ def run(tier, seed):
             want = "1" if (real[0] == "ok" and real[1]) else "0"
             if rep[0] != "ok" or rep[1] != want:
                 chk.disagree(op, f"{a} == {b}: model {rep} implementation {real}")
+            continue
+        if op == "c05.ascoeff":
+            cf, cu = real[1]
+            try:
+                want = gen.unit_wire_fields(cu)
+            except ValueError:
+                continue
+            ok = (rep[0] == "ok" and len(rep) >= 7 and core.close(core.b2f(rep[6]), cf, 1e-12) and core.close(core.b2f(rep[1]), cu.base_value, 1e-9)
+                  and core.close(core.b2f(rep[2]), cu.base_offset) and rep[3] == want[2]
+                  and gen.parse_factors(rep[5]) == gen.parse_factors(want[4]) and core.close(core.b2f(rep[4]), core.b2f(want[3]), 1e-9))
+            if not ok:
+                chk.disagree(op, f"{a}: model {rep[1:]} implementation coeff {cf!r} unit {want}")
             continue
         if real[0] == "err":
             if rep[0] != "err" or rep[1] != real[1]:
